@@ -64,7 +64,10 @@ RecVals ==
   LET datas == { [t |-> "A", val |-> Base("A")], [t |-> "A", val |-> << <<1, 2, 3, 5>> >>],
                  [t |-> "NS", val |-> Base("NS")], [t |-> "NS", val |-> LowerAll("NS", Base("NS"))],
                  [t |-> "NSEC", val |-> Base("NSEC")], [t |-> "NSEC", val |-> LowerAll("NSEC", Base("NSEC"))],
-                 [t |-> "TYPE99", val |-> Base("TYPE99")], [t |-> "OPT", val |-> Base("OPT")] }
+                 [t |-> "TYPE99", val |-> Base("TYPE99")], [t |-> "OPT", val |-> Base("OPT")],
+                 \* two unknown types whose data sorts opposite to / like the type codes
+                 [t |-> "TYPE99", val |-> << <<255, 255>> >>], [t |-> "TYPE65534", val |-> << <<0>> >>],
+                 [t |-> "TYPE65534", val |-> << <<255, 255>> >>], [t |-> "TYPE62", val |-> << <<255, 255>> >>] }
   IN {[class |-> c, owner |-> o, ttl |-> l, code |-> CodeOf(d.t), t |-> d.t, val |-> d.val] :
         c \in {1, 3}, o \in {<<la>>, <<lA>>, <<lb, la>>}, l \in {0, 3600}, d \in datas}
 
@@ -136,6 +139,7 @@ LawRecord == kind = "record" =>
   /\ (RecEqCore(a, b) <=> RecEqCore(b, a))
   /\ (RecCanonPinned(a, b) => RecCanonCmp(a, b) = Neg(RecCanonCmp(b, a)))
   /\ (RecCanonPinned(a, b) /\ RecCanonCmp(a, b) = 0 => RecEqCore(a, b))
+  /\ (RecCanonPinned(a, b) => IsSign(RecCanonCmp(a, b)))
 
 \* transitivity, evaluated once (in one designated state)
 Once == kind = "label" /\ a = <<0>> /\ b = <<0>>
